@@ -14,7 +14,7 @@ for fam in fams:
     t0 = time.time(); nv = 0; cyc = 0; chk = 0; nt = 0
     for i in range(n):
         rng = prng.stream(seed, mod.PROPERTY, fam, i)
-        scn = mod.generate(fam, rng, "quick")
+        scn = mod.generate_indexed(fam, i, rng, "quick") if hasattr(mod, "generate_indexed") else mod.generate(fam, rng, "quick")
         scn.setdefault("family", fam)
         r = runner.run_one(mod, scn)
         if "harness_error" in r:
